@@ -19,6 +19,9 @@ A case is a JSON-able dict:
     rsize   int             every result carries a payload of that many bytes (results larger than the 64 KiB pipe buffer)
     summary bool            large runs: order/values are checked in the caller, only a summary comes back
     watchdog float          watchdog time of this case (default: the global one)
+    form    dict            how things are handed over: container list|tuple|ndarray, pair tuple|list, args tuple|list,
+                            kwargs own|shared|empty, func plain|lambda|closure|method|partial|callable,
+                            result tuple|list|dict|ndarray; for do_trials: kwargs own|empty, ncpu keyword|positional|cfg
 The outcome is a dict {out: 'done'|'error'|'timeout'|'died', res, etype, mro, msg, wall, nlog, alive (child processes
 still alive 1 s after the call), kw_changed (tasks whose caller-side kwargs dict was altered), arrival (pid order)}.
 """
@@ -61,7 +64,100 @@ def _strip(r):
 
 
 def _kw_snapshot(args_list):
-    return [(tuple(a), sorted(kw.keys()), [id(kw[k]) for k in sorted(kw.keys())]) for a, kw in args_list]
+    return [(tuple(a), sorted(kw.keys()), [id(kw[k]) for k in sorted(kw.keys())]) for a, kw in list(args_list)]
+
+
+# ---- the form in which function, argument list and results are handed over (case['form'])
+
+def kval(case, i):
+    """value of the keyword argument `k` of task i for the kwargs form of the case"""
+    kw = (case.get('form') or {}).get('kwargs', 'own')
+    return {'own': 3 * i, 'shared': 5, 'empty': 0}[kw]
+
+
+def _encode(kind, r):
+    if kind == 'list':
+        return list(r)
+    if kind == 'dict':
+        return {'i': r[0], 'v': r[1], 'pid': r[2], 'draw': r[3], 'payload': r[4] if len(r) > 4 else None}
+    if kind == 'ndarray':
+        import numpy as np
+        return np.array([r[0], r[1], r[2], -1 if r[3] is None else r[3]], dtype=np.int64)
+    return r
+
+
+def _decode(kind, r):
+    try:
+        if kind == 'dict':
+            t = (r['i'], r['v'], r['pid'], r['draw'])
+            return t + ((r['payload'],) if r.get('payload') is not None else ())
+        if kind == 'ndarray':
+            return (int(r[0]), int(r[1]), int(r[2]), None if int(r[3]) == -1 else int(r[3]))
+        if kind == 'list':
+            return tuple(r)
+    except Exception:  # noqa
+        return repr(r)
+    return r
+
+
+class _Mapped(object):
+    def __init__(self, kind):
+        self.kind = kind
+
+    def run(self, *a, **kw):
+        return _encode(self.kind, task_func(*a, **kw))
+
+    __call__ = run
+
+
+def build_func(form):
+    kind = form.get('result', 'tuple')
+    fk = form.get('func', 'plain')
+    if fk == 'plain' and kind == 'tuple':
+        return task_func
+    m = _Mapped(kind)
+    if fk == 'method':
+        return m.run
+    if fk == 'callable':
+        return m
+    if fk == 'lambda':
+        return lambda *a, **kw: m.run(*a, **kw)
+    if fk == 'partial':
+        import functools
+        return functools.partial(m.run, log=False) if not form.get('_logs') else functools.partial(m.run)
+
+    def closure(*a, **kw):      # 'closure' and 'plain' with a non-tuple result
+        return m.run(*a, **kw)
+    return closure
+
+
+def build_args_list(case, msleep, boom):
+    import numpy as np
+    form = case.get('form') or {}
+    n = case['n']
+    kw = form.get('kwargs', 'own')
+    shared = {'k': 5, 'rsize': int(case.get('rsize') or 0)}
+    out = []
+    for i in range(n):
+        if kw == 'shared':
+            d = shared
+        elif kw == 'empty':
+            d = {}
+        else:
+            d = {'k': 3 * i, 'sleep': msleep.get(i, 0.0), 'boom': i in boom, 'log': bool(case.get('logs')),
+                 'rsize': int(case.get('rsize') or 0)}
+        a = [i] if form.get('args') == 'list' else (i,)
+        out.append([a, d] if form.get('pair') == 'list' else (a, d))
+    c = form.get('container', 'list')
+    if c == 'tuple':
+        return tuple(out)
+    if c == 'ndarray':
+        arr = np.empty((n, 2), dtype=object)
+        for i, (a, d) in enumerate(out):
+            arr[i, 0] = a
+            arr[i, 1] = d
+        return arr
+    return out
 
 
 def _stub_analysis():
@@ -119,7 +215,15 @@ def _child_main(case, wfd):
         try:
             if case.get('api', 'parallelize') == 'do_trials':
                 ana = _stub_analysis()
-                rec = ana.do_trials(rss, case['n'], ncpu=case['ncpu'], k=7)
+                form = case.get('form') or {}
+                kw = {} if form.get('kwargs') == 'empty' else {'k': 7}
+                if form.get('ncpu') == 'cfg':       # ncpu=None: taken from the configuration by get_ncpu
+                    ana._cfg['multiproc']['ncpu'] = case['ncpu']
+                    rec = ana.do_trials(rss, case['n'], **kw)
+                elif form.get('ncpu') == 'positional':
+                    rec = ana.do_trials(rss, case['n'], case['ncpu'], **kw)
+                else:
+                    rec = ana.do_trials(rss, case['n'], ncpu=case['ncpu'], **kw)
                 res = [tuple(int(x) for x in row) for row in rec.tolist()]
             elif case.get('api') == 'repeat':
                 # the same args_list object handed to parallelize several times, each time with a fresh
@@ -146,18 +250,19 @@ def _child_main(case, wfd):
                 from skyllh.core.multiproc import parallelize
                 msleep = {int(k): v for k, v in (case.get('msleep') or {}).items()}
                 boom = set(case.get('boom') or [])
-                args_list = [((i,), {'k': 3 * i, 'sleep': msleep.get(i, 0.0), 'boom': i in boom,
-                                      'log': bool(case.get('logs')), 'rsize': int(case.get('rsize') or 0)})
-                             for i in range(case['n'])]
+                form = dict(case.get('form') or {}, _logs=bool(case.get('logs')))
+                args_list = build_args_list(case, msleep, boom)
+                func = build_func(form)
                 snap0 = _kw_snapshot(args_list)
                 try:
-                    res = parallelize(task_func, args_list, case['ncpu'], rss=rss)
+                    res = parallelize(func, args_list, case['ncpu'], rss=rss)
                 finally:
                     extra = {'kw_changed': [i for i, (x, y) in enumerate(zip(snap0, _kw_snapshot(args_list))) if x != y][:4]}
-                res = [_strip(r) for r in res]
+                extra['res_type'] = type(res).__name__
+                res = [_strip(_decode(form.get('result', 'tuple'), r)) for r in res]
             if case.get('summary'):
                 # large runs: check order and values here, send back a summary only
-                bad = [i for i, r in enumerate(res) if not (isinstance(r, tuple) and len(r) == 4 and r[0] == i and r[1] == i * i + 3 * i)][:3]
+                bad = [i for i, r in enumerate(res) if not (isinstance(r, tuple) and len(r) == 4 and r[0] == i and r[1] == i * i + kval(case, i))][:3]
                 out = {'out': 'done', 'res_len': len(res), 'res_bad': bad}
             else:
                 out = {'out': 'done', 'res': res, 'logmsgs': [m for m in recs if m.startswith('task ')][:64]}
